@@ -25,6 +25,8 @@ ASSUMPTIONS = [
     "jobs scheduled during the final drain (after the last event was handled) are outside the property (CHANGELOG 1.6.1)",
 ]
 EVENTS = (10, 20, 30)
+import datetime as _dt  # noqa: E402
+TZS = (_dt.timezone(_dt.timedelta(hours=-5)), _dt.timezone(_dt.timedelta(hours=5, minutes=30)))
 EVENTS_B = (10, 25)  # second source (scenarios with two sources): a tie with the first source and a time in between
 TIMES = (5, 10, 15, 25, 30, 35, 40, 45)
 # sub-second times sharing a UTC second, between events and beyond the last one
@@ -50,6 +52,8 @@ def scenarios(tier, seed):
                         out.append((jt, maxc, mode, raising, 1))
                         if size <= 2:
                             out.append((jt, maxc, mode, raising, 2))
+                            if maxc == 1 and raising is None:
+                                out.append((jt, maxc, mode, raising, 3))
     return out
 
 
@@ -69,9 +73,13 @@ def make_run(sc, states=None):
         def now():
             return secs(d.now())
 
+        def _when(i):
+            # with nsrc == 3 (one source, time-zone mix) job times are expressed in zones west / east of UTC
+            return T(jt[i]).astimezone(TZS[i % len(TZS)]) if nsrc == 3 else T(jt[i])
+
         def sched(i):
             trace.append(("sched", i, now()))
-            d.schedule(T(jt[i]), job(i))
+            d.schedule(_when(i), job(i))
 
         async def h(e):
             t = secs(e.when)
@@ -108,7 +116,7 @@ def make_run(sc, states=None):
         for i, m in enumerate(mode):
             if m == "up":
                 trace.append(("sched", i, None))
-                d.schedule(T(jt[i]), job(i))
+                d.schedule(_when(i), job(i))
 
         def quiescent(loop):
             note()
